@@ -315,7 +315,7 @@ func runCase(r *hx.Run, c hx.Case) {
 					r.Fail(c.ID, "value-"+setter+"-not-preserved", fmt.Sprintf("%s: %s = %q does not carry the address %s (parse error %v)", where, n, values[i], ff[1], perr))
 				}
 			}
-			if check && utf8.ValidString(val) {
+			if check { // byte-exact also for values that are not valid UTF-8 (the encoded-word carries the bytes)
 				got, derr := dec.DecodeHeader(values[i])
 				if derr != nil || wsNorm(got) != wsNorm(want) {
 					cl := "value-" + setter + "-not-preserved"
@@ -326,7 +326,7 @@ func runCase(r *hx.Run, c hx.Case) {
 					r.Fail(c.ID, cl, fmt.Sprintf("%s %s decodes to %q, set was %q (err %v)", where, n, got, want, derr))
 				}
 			}
-			if si > 0 && n == "Content-Disposition" && (setter == "fname" || setter == "ename") && utf8.ValidString(val) {
+			if si > 0 && n == "Content-Disposition" && (setter == "fname" || setter == "ename") {
 				// filename="…": RFC 2047 decoded, must be the sanitised name
 				v := values[i]
 				if k := strings.Index(v, `filename="`); k >= 0 && strings.HasSuffix(v, `"`) {
